@@ -230,6 +230,20 @@ class DTypeName(str):
         return c[1] if c else "O"
 
 
+class Size(tuple):
+    """torch.Size: a tuple with numel(); slices of it are Sizes again"""
+
+    def numel(self):
+        n = 1
+        for v in self:
+            n *= int(v)
+        return n
+
+    def __getitem__(self, k):
+        r = tuple.__getitem__(self, k)
+        return Size(r) if isinstance(k, slice) else r
+
+
 class Arr:
     """common base of the Tensor and NDArray facades"""
     kind = "numpy"
@@ -274,7 +288,7 @@ class Arr:
     # ---- basic protocol
     @property
     def shape(self):
-        return tuple(self.a.shape)
+        return Size(self.a.shape)
 
     @property
     def ndim(self):
@@ -861,7 +875,7 @@ class Arr:
             out.append(self[tuple(key)])
         return tuple(out)
 
-    def clone(self):
+    def clone(self, memory_format=None):
         return self._mk(self.a.copy(), [self], lambda g: [g])
 
     def copy(self):
@@ -870,7 +884,7 @@ class Arr:
     def detach(self):
         return type(self)(self.a, dtype=self.dtype)
 
-    def contiguous(self):
+    def contiguous(self, memory_format=None):
         return self
 
     def requires_grad_(self, flag=True):
@@ -958,6 +972,37 @@ class Arr:
         if not isinstance(index, Arr):
             index = type(self)(_obj(index), dtype="int64")
         return self[(slice(None),) * dim + (index,)]
+
+    def unbind(self, dim=0):
+        dim = dim % self.a.ndim
+        return tuple(self[(slice(None),) * dim + (i,)] for i in range(self.a.shape[dim]))
+
+    def split(self, size, dim=0):
+        dim = dim % self.a.ndim
+        n = self.a.shape[dim]
+        if isinstance(size, int):
+            sizes = [size] * (n // size) + ([n % size] if n % size else [])
+        else:
+            sizes = [int(v) for v in size]
+            if builtins.sum(sizes) != n:
+                raise RuntimeError("split_with_sizes expects split_sizes to sum exactly to %d" % n)
+        out, at = [], 0
+        for sz in sizes:
+            out.append(self[(slice(None),) * dim + (slice(at, at + sz),)])
+            at += sz
+        return tuple(out)
+
+    def index_fill(self, dim, index, value):
+        r = self.clone()
+        dim = dim % self.a.ndim
+        idx = index.a if isinstance(index, Arr) else _obj(index)
+        for t in idx.flat:
+            r.a[(slice(None),) * dim + (int(t),)] = value
+        return r
+
+    def index_fill_(self, dim, index, value):
+        self.a[...] = self.index_fill(dim, index, value).a
+        return self
 
     def narrow(self, dim, start, length):
         """x.narrow(dim, start, length) == x[..., start:start+length, ...] with torch's range check"""
